@@ -9,6 +9,7 @@ def main(tier):
     rep.analysed["tree_hash"] = P.tree_hash
     footprint.closed_extent(P, rep)
     footprint.alias_wrappers(P, rep)
+    footprint.polygon_boundary(P, rep)
     dep.alias_callers(P, rep)
     footprint.plume_sections(P, rep)
     footprint.angle_interpolation(P, rep)
